@@ -639,6 +639,11 @@ impl World {
                 harness(fs::set_permissions(&t, fs::Permissions::from_mode(*mode)));
                 Observed::NoCall
             }
+            Op::CorruptToml { layer } => {
+                let t = to_path(&self.root, &model_after.ltoml(*layer));
+                harness(fs::write(&t, b"[metadata]\nversion = \"trunca"));
+                Observed::NoCall
+            }
             Op::RewriteSource { idx, data } => {
                 // in place: open for writing, truncate, write (what `fs::write` does)
                 harness(fs::write(self.root.join(format!("execd_src/p{idx}")), data));
